@@ -100,6 +100,11 @@ CLAIMED = {
         note="Coq kernel + vm_compute; closed under the global context; float() recognition is a parameter instantiated by a decidable ASCII class checked against Python on every run; hand models tied by correspondence; no grammar-soundness claim (postfix-ordered antecedents are accepted by the code).",
         technique="Rocq proof (state-machine invariants for all texts) + exact correspondence on a malformed stream",
         ref="DESIGN.md §3 C16"),
+    "C15": dict(
+        text="Model of the Python representation: constructor call trees produced by as_constructor/construction_arguments with every __repr__ override's dropped-field rule and every __init__ signature REGENERATED from /repo on each run (tools/translate_signatures.py, fail closed), and of Python's call semantics for these constructors; theorems for every class of the translated table and every alias setting: construct(repr c) = normalize c, repr is a fixed point of normalize, the encapsulated export evaluates to the same constructor tree. Correspondence: the implementation's repr text parsed with Python's ast equals the model's tree; executing the library's import statement and evaluating the export rebuilds an object with equal repr, equal FLL and bit-identical outputs, for aliases fl / empty / * / custom, plain and encapsulated, formatted and unformatted, and per component.",
+        note="Coq kernel + vm_compute; closed under the global context; Python's parser/eval/keyword binding and black are trusted (theorems are about call trees, not text); repr(float) round-trip is a hypothesis instantiated concretely; known findings pyrepr:rule-enabled-lost and pyrepr:encapsulated-name-shadows-library reported as KNOWN-FINDING.",
+        technique="Rocq proof (construct . repr = normalize over signatures regenerated from source) + exact correspondence via Python's ast",
+        ref="DESIGN.md §3 C15"),
 }
 PENDING_REASON = "check under construction in this round (planned in DESIGN.md §3); not claimed until its theorems and correspondence run"
 
